@@ -306,6 +306,7 @@ class WebSocket:
                 )
             self.connected = True
         except:
+            self.connected = False
             if self.sock:
                 self.sock.close()
                 self.sock = None
